@@ -16,6 +16,11 @@ def main():
     chk.bounds.append('E2 blocked slice: SparseMatrixBCSR<2,3> and <2,2> with 1..2 block rows/cols and every block pattern with 1..3 blocks; scale, axpy, norm_frobenius, row_norm2(sqr) plain and scaled, lump_rows, scale_rows, scale_cols, transpose, extract_diag')
     chk.functions += ['LAFEM::SparseMatrixBCSR<SymReal,Index,2,3>::{scale,axpy,norm_frobenius,row_norm2,row_norm2sqr(+scaled),lump_rows,scale_rows,scale_cols,transpose}', 'LAFEM::SparseMatrixBCSR<SymReal,Index,2,2>::extract_diag', 'LAFEM::Arch::{RowNorm,Lumping,ScaleRows,ScaleCols}::bcsr*_generic']
     e2prop.run_e2(chk, e2prop.e2_harness_path('c03b_e2.cpp'), 'c03b_e2', timeout=30 if quick else 300, harness_args=['--bounds', '2', '3' if quick else '4'])
+    # other formats slice: DenseMatrix, Banded, CSCR
+    chk.bounds.append('E2 other formats slice: DenseMatrix m x l x n in 1..%s (scale, axpy, norm, four multiply overloads incl. fresh result matrices, transpose, transpose_inplace, invert); SparseMatrixBanded (5 shapes/offset sets, zero padding) and SparseMatrixCSCR (1..3 x 2, every pattern): element access, scale, axpy, norm_frobenius, extract_diag' % ('2' if quick else '3'))
+    chk.functions += ['LAFEM::DenseMatrix<SymReal,Index>::{scale,axpy,norm_frobenius,multiply (4 overloads),invert/inverse,transpose,transpose_inplace}', 'LAFEM::Arch::ProductMatMat::{dense_generic,dsd_generic}', 'Math::invert_matrix', 'LAFEM::SparseMatrixBanded::{operator(),scale,axpy,norm_frobenius,extract_diag}', 'LAFEM::SparseMatrixCSCR::{operator(),scale,axpy,norm_frobenius}']
+    chk.assume('Banded: the parts of the virtual bands outside the matrix are zero (undocumented; norm_frobenius sums them)')
+    e2prop.run_e2(chk, e2prop.e2_harness_path('c03c_e2.cpp'), 'c03c_e2', timeout=40 if quick else 300, harness_args=['--bounds', '1' if quick else '2'], max_group=1)
     return chk.finish(
         explanation='Bounded symbolic check: matrix-level operations of the real SparseMatrixCSR class run on a symbolic real scalar for every pattern configuration in the bound; z3 decides equality with the dense textbook formula restricted to the output pattern for ALL real values; with allow_incomplete=false and a missing output entry the abort must be reached.',
         rule=e2prop.E2_RULE, trusted=e2prop.E2_TRUSTED)
